@@ -70,6 +70,53 @@ Proof.
   rewrite ps_key_eqb_neq; [apply IH; assumption|]. intros E. apply H1. rewrite <- E. apply in_map. exact Hin.
 Qed.
 
+(* objects that differ in their version only *)
+Definition ps_same_fo (o o' : ps_mobj) : Prop := ps_m_fields o = ps_m_fields o' /\ ps_m_orig o = ps_m_orig o'.
+
+(* ModifyAttribute never reads the version: outcome, fields and original_attributes do not depend on it *)
+Lemma ps_modify_version_indep fe k v updv now o o' :
+  ps_same_fo o o' ->
+  fst (ps_modify_attribute fe k v updv now o) = fst (ps_modify_attribute fe k v updv now o') /\
+  ps_same_fo (snd (ps_modify_attribute fe k v updv now o)) (snd (ps_modify_attribute fe k v updv now o')).
+Proof.
+  destruct o as [f og ve], o' as [f' og' ve']. intros [Hf Ho]. cbn in Hf, Ho. subst f' og'.
+  unfold ps_modify_attribute, ps_same_fo. cbn [ps_m_fields ps_m_orig ps_m_version].
+  destruct (ps_split k) as [|fld rest]; [cbn; auto|].
+  destruct (ps_filookup fe fld) as [fi|]; [|cbn; auto].
+  destruct (ps_fi_nomod fi); [cbn; auto|].
+  destruct (ps_fi_config fi), og as [d|]; cbn [ps_m_fields ps_m_orig ps_m_version ps_orig_dict];
+    (destruct rest as [|r rest'];
+     [ destruct (ps_field_accepts fi v); cbn; auto
+     | repeat match goal with |- context [match ?x with _ => _ end] => destruct x eqn:? end; cbn; auto ]).
+Qed.
+
+Lemma ps_replay_lines_version_indep fe now : forall script o o',
+  ps_same_fo o o' ->
+  fst (ps_replay_lines fe script now o) = fst (ps_replay_lines fe script now o') /\
+  ps_same_fo (snd (ps_replay_lines fe script now o)) (snd (ps_replay_lines fe script now o')).
+Proof.
+  induction script as [|kv script IH]; intros o o' Hs; [cbn; auto|].
+  cbn [ps_replay_lines].
+  destruct (ps_modify_version_indep fe (fst kv) (ps_writer_codec (snd kv)) true now o o' Hs) as [Hok Hs'].
+  destruct (ps_modify_attribute fe (fst kv) (ps_writer_codec (snd kv)) true now o) as [ok r].
+  destruct (ps_modify_attribute fe (fst kv) (ps_writer_codec (snd kv)) true now o') as [ok' r']. cbn in Hok, Hs'. subst ok'.
+  destruct ok; [apply IH; exact Hs' | cbn; auto].
+Qed.
+
+(* the evaluation of one block on an object that differs from [o] in its version only *)
+Lemma ps_replay_modattrs_version_indep fe script ver now o o' r :
+  ps_same_fo o o' -> ps_replay_modattrs fe script ver now o = (true, r) ->
+  exists r', ps_replay_modattrs fe script ver now o' = (true, r') /\ ps_same_fo r r' /\
+             (script <> [] -> ps_m_version r' = ver) /\ (script = [] -> r' = o').
+Proof.
+  intros Hs Hr. unfold ps_replay_modattrs in *. destruct script as [|kv script].
+  - exists o'. inversion Hr; subst. split; [reflexivity|]. split; [exact Hs|]. split; [intros H; contradiction | reflexivity].
+  - destruct (ps_replay_lines_version_indep fe now (kv :: script) o o' Hs) as [Hok Hs'].
+    destruct (ps_replay_lines fe (kv :: script) now o) as [ok r1]. destruct (ps_replay_lines fe (kv :: script) now o') as [ok' r1'].
+    cbn in Hok, Hs'. subst ok'. destruct ok; [|discriminate]. inversion Hr; subst.
+    eexists. split; [reflexivity|]. split; [exact Hs'|]. split; [reflexivity | discriminate].
+Qed.
+
 Section PopReload.
   Variable fe : ps_fenv.
   Variable now : Z.
@@ -83,50 +130,66 @@ Section PopReload.
       intros H. inversion H. split; discriminate.
   Qed.
 
-  (* the replay of the blocks dumped from the objects [specs], on any population in which these objects are still as
-     configured: every one of them ends up as its per-object theorem says, nothing else is touched *)
-  Lemma ps_pop_replay_spec : forall specs pop,
-    NoDup (map ps_s_name specs) ->
-    (forall s, In s specs -> ps_pspec_ok fe s /\ ps_pop_find (ps_s_name s) pop = Some (ps_s_o0 s)) ->
-    exists blocks r,
-      ps_pop_dump (ps_pop_cur specs) = Some blocks /\ ps_pop_replay fe now blocks pop = (true, r) /\
-      map ps_p_name r = map ps_p_name pop /\
-      (forall n, ~ In n (map ps_s_name specs) -> ps_pop_find n r = ps_pop_find n pop) /\
-      (forall s, In s specs -> exists ro, ps_pop_find (ps_s_name s) r = Some ro /\ ps_pspec_concl s ro).
+  (* the evaluation of the blocks dumped from the objects [specs] on any population in which each of these objects is
+     [init s]: if every single block evaluates on its object to something satisfying [Q] (and an object without block
+     satisfies Q as it is), then so does the whole file on the population - nothing else is touched *)
+  Section Gen.
+    Variable init : ps_pspec -> ps_mobj.
+    Variable Q : ps_pspec -> ps_mobj -> Prop.
+
+    Lemma ps_pop_replay_gen : forall specs pop,
+      NoDup (map ps_s_name specs) ->
+      (forall s, In s specs -> ps_pop_find (ps_s_name s) pop = Some (init s) /\
+         exists script ro, ps_dump_modattrs (ps_s_cur s) = Some script /\
+           ps_replay_modattrs fe script (ps_m_version (ps_s_cur s)) now (init s) = (true, ro) /\ Q s ro /\ (script = [] -> ro = init s)) ->
+      exists blocks r,
+        ps_pop_dump (ps_pop_cur specs) = Some blocks /\ ps_pop_replay fe now blocks pop = (true, r) /\
+        map ps_p_name r = map ps_p_name pop /\
+        (forall n, ~ In n (map ps_s_name specs) -> ps_pop_find n r = ps_pop_find n pop) /\
+        (forall s, In s specs -> exists ro, ps_pop_find (ps_s_name s) r = Some ro /\ Q s ro).
+    Proof.
+      induction specs as [|s specs IH]; intros pop Hnd Hs.
+      - exists [], pop. cbn. repeat split; try reflexivity. intros s [].
+      - cbn in Hnd. inversion Hnd as [|? ? Hnotin Hnd']; subst.
+        destruct (Hs s (or_introl eq_refl)) as (Hfind & script & ro & Hdump & Hrep & HQ & Hnilro).
+        destruct script as [|l0 script'].
+        + (* nothing listed: no block; the object stays as it is *)
+          destruct (IH pop Hnd') as (blocks & r & Hd & Hr & Hn & Hoth & Hall).
+          { intros s' Hin. apply Hs. right. exact Hin. }
+          exists blocks, r. cbn [ps_pop_cur map ps_pop_dump ps_p_obj ps_p_name]. fold (ps_pop_cur specs). rewrite Hdump, Hd.
+          split; [reflexivity|]. split; [exact Hr|]. split; [exact Hn|]. split.
+          * intros n Hnin. apply Hoth. intros H. apply Hnin. right. exact H.
+          * intros s' [<-|Hin]; [|apply Hall; exact Hin].
+            exists (init s). split; [rewrite (Hoth _ Hnotin); exact Hfind|]. rewrite <- (Hnilro eq_refl). exact HQ.
+        + set (b := {| ps_b_name := ps_s_name s; ps_b_lines := l0 :: script'; ps_b_version := ps_m_version (ps_s_cur s) |}).
+          set (pop1 := ps_pop_set (ps_s_name s) ro pop).
+          destruct (IH pop1 Hnd') as (blocks & r & Hd & Hr & Hn & Hoth & Hall).
+          { intros s' Hin. destruct (Hs s' (or_intror Hin)) as [Hf' Hrest]. split; [|exact Hrest]. unfold pop1.
+            rewrite ps_pop_find_set_other; [exact Hf'|].
+            intros E. apply Hnotin. rewrite E. apply in_map. exact Hin. }
+          exists (b :: blocks), r. cbn [ps_pop_cur map ps_pop_dump ps_p_obj ps_p_name]. fold (ps_pop_cur specs). rewrite Hdump, Hd.
+          split; [reflexivity|]. split.
+          * cbn [ps_pop_replay]. unfold ps_block_replay. cbn [ps_b_name ps_b_lines ps_b_version b]. rewrite Hfind, Hrep. exact Hr.
+          * split; [rewrite Hn; unfold pop1; apply ps_pop_set_names|]. split.
+            -- intros n Hnin. rewrite Hoth by (intros H; apply Hnin; right; exact H). unfold pop1.
+               apply ps_pop_find_set_other. intros E. apply Hnin. left. exact E.
+            -- intros s' [<-|Hin]; [|apply Hall; exact Hin].
+               exists ro. split; [rewrite (Hoth _ Hnotin); unfold pop1; apply (ps_pop_find_set_same _ _ _ _ Hfind) | exact HQ].
+    Qed.
+  End Gen.
+
+  (* what the per-object theorem gives for one object *)
+  Lemma ps_pspec_object s : ps_pspec_ok fe s ->
+    exists script ro, ps_dump_modattrs (ps_s_cur s) = Some script /\
+      ps_replay_modattrs fe script (ps_m_version (ps_s_cur s)) now (ps_s_o0 s) = (true, ro) /\ ps_pspec_concl s ro /\
+      (script = [] -> ro = ps_s_o0 s).
   Proof.
-    induction specs as [|s specs IH]; intros pop Hnd Hs.
-    - exists [], pop. cbn. repeat split; try reflexivity. intros s [].
-    - cbn in Hnd. inversion Hnd as [|? ? Hnotin Hnd']; subst.
-      destruct (Hs s (or_introl eq_refl)) as ((H1 & H2 & H3 & H4 & H0 & Hinv & Hvals) & Hfind).
-      destruct (ps_reload_roundtrip fe (ps_s_P s) (ps_s_o0 s) H1 H2 H3 H4 (ps_s_cur s) Hinv now Hvals (ps_m_version (ps_s_cur s)) H0)
-        as (script & ro & Hdump & Hrep & C1 & C2 & C3 & C4 & C5).
-      pose proof (ps_dump_modattrs_nil _ _ Hdump) as Hnil.
-      destruct script as [|l0 script'].
-      + (* nothing listed: no block; the object stays as configured *)
-        assert (ps_orig_dict (ps_s_cur s) = []) as He by (apply Hnil; reflexivity).
-        destruct (IH pop Hnd') as (blocks & r & Hd & Hr & Hn & Hoth & Hall).
-        { intros s' Hin. apply Hs. right. exact Hin. }
-        exists blocks, r. cbn [ps_pop_cur map ps_pop_dump ps_p_obj ps_p_name]. fold (ps_pop_cur specs). rewrite Hdump, Hd.
-        split; [reflexivity|]. split; [exact Hr|]. split; [exact Hn|]. split.
-        * intros n Hnin. apply Hoth. intros H. apply Hnin. right. exact H.
-        * intros s' [<-|Hin]; [|apply Hall; exact Hin].
-          exists (ps_s_o0 s). split; [rewrite (Hoth _ Hnotin); exact Hfind|].
-          destruct (C5 He) as [_ ->]. repeat split; try assumption; try apply C3.
-      + set (b := {| ps_b_name := ps_s_name s; ps_b_lines := l0 :: script'; ps_b_version := ps_m_version (ps_s_cur s) |}).
-        set (pop1 := ps_pop_set (ps_s_name s) ro pop).
-        destruct (IH pop1 Hnd') as (blocks & r & Hd & Hr & Hn & Hoth & Hall).
-        { intros s' Hin. split; [apply Hs; right; exact Hin|]. unfold pop1.
-          rewrite ps_pop_find_set_other; [apply Hs; right; exact Hin|].
-          intros E. apply Hnotin. rewrite E. apply in_map. exact Hin. }
-        exists (b :: blocks), r. cbn [ps_pop_cur map ps_pop_dump ps_p_obj ps_p_name]. fold (ps_pop_cur specs). rewrite Hdump, Hd.
-        split; [reflexivity|]. split.
-        * cbn [ps_pop_replay]. unfold ps_block_replay. cbn [ps_b_name ps_b_lines ps_b_version b]. rewrite Hfind, Hrep. exact Hr.
-        * split; [rewrite Hn; unfold pop1; apply ps_pop_set_names|]. split.
-          -- intros n Hnin. rewrite Hoth by (intros H; apply Hnin; right; exact H). unfold pop1.
-             apply ps_pop_find_set_other. intros E. apply Hnin. left. exact E.
-          -- intros s' [<-|Hin]; [|apply Hall; exact Hin].
-             exists ro. split; [rewrite (Hoth _ Hnotin); unfold pop1; apply (ps_pop_find_set_same _ _ _ _ Hfind)|].
-             repeat split; try assumption; try apply C3. intros He. destruct (C5 He) as [Hx _]. discriminate.
+    intros (H1 & H2 & H3 & H4 & H0 & Hinv & Hvals).
+    destruct (ps_reload_roundtrip fe (ps_s_P s) (ps_s_o0 s) H1 H2 H3 H4 (ps_s_cur s) Hinv now Hvals (ps_m_version (ps_s_cur s)) H0)
+      as (script & ro & Hdump & Hrep & C1 & C2 & C3 & C4 & C5).
+    exists script, ro. split; [exact Hdump|]. split; [exact Hrep|]. split.
+    - split; [exact C1|]. split; [exact C2|]. split; [exact C3|]. split; [exact C4|]. intros He. exact (proj2 (C5 He)).
+    - intros ->. apply C5. apply (ps_dump_modattrs_nil _ _ Hdump). reflexivity.
   Qed.
 
   (* THE POPULATION THEOREM: DumpModifiedAttributes over the running population, the file evaluated on the population
@@ -140,9 +203,72 @@ Section PopReload.
       (forall s, In s specs -> exists ro, ps_pop_find (ps_s_name s) r = Some ro /\ ps_pspec_concl s ro).
   Proof.
     intros Hnd Hok.
-    destruct (ps_pop_replay_spec specs (ps_pop_base specs) Hnd) as (blocks & r & Hd & Hr & Hn & _ & Hall).
-    { intros s Hin. split; [apply Hok; exact Hin | apply ps_pop_base_find; assumption]. }
+    destruct (ps_pop_replay_gen ps_s_o0 ps_pspec_concl specs (ps_pop_base specs) Hnd) as (blocks & r & Hd & Hr & Hn & _ & Hall).
+    { intros s Hin. split; [apply ps_pop_base_find; assumption | apply ps_pspec_object; apply Hok; exact Hin]. }
     exists blocks, r. repeat split; try assumption. rewrite Hn. unfold ps_pop_base. rewrite map_map. reflexivity.
+  Qed.
+
+  (* ---- the whole stop/start cycle: state file (version) + modified-attributes.conf ---- *)
+  Definition ps_pspec_concl_restart (s : ps_pspec) (r : ps_mobj) : Prop :=
+    (forall p, In p (ps_s_P s) -> ps_get_attr p r = ps_get_attr p (ps_s_cur s)) /\
+    (forall q, (forall p, In p (ps_s_P s) -> ps_incomp p q) -> ps_get_attr q r = ps_get_attr q (ps_s_cur s)) /\
+    (forall k x, In (k, x) (ps_orig_dict r) <-> In (k, x) (ps_orig_dict (ps_s_cur s))) /\
+    ps_m_version r = ps_m_version (ps_s_cur s) /\
+    (ps_orig_dict (ps_s_cur s) = [] -> r = ps_set_version (ps_m_version (ps_s_cur s)) (ps_s_o0 s)).
+
+  Lemma ps_state_restore_find specs : NoDup (map ps_s_name specs) ->
+    forall s, In s specs ->
+    ps_pop_find (ps_s_name s) (ps_state_restore (ps_pop_cur specs) (ps_pop_base specs)) = Some (ps_set_version (ps_m_version (ps_s_cur s)) (ps_s_o0 s)).
+  Proof.
+    intros Hnd.
+    assert (forall s, In s specs -> ps_pop_find (ps_s_name s) (ps_pop_cur specs) = Some (ps_s_cur s)) as Hcur.
+    { clear - Hnd. induction specs as [|s0 specs IH]; intros s Hin; [contradiction|]. cbn in Hnd |- *. inversion Hnd; subst.
+      destruct Hin as [<-|Hin]; [rewrite ps_key_eqb_refl; reflexivity|].
+      rewrite ps_key_eqb_neq; [apply IH; assumption|]. intros E. apply H1. rewrite <- E. apply in_map. exact Hin. }
+    unfold ps_state_restore. generalize (ps_pop_cur specs) Hcur. clear Hcur. intros saved Hcur.
+    induction specs as [|s0 specs IH]; intros s Hin; [contradiction|]. cbn in Hnd |- *. inversion Hnd; subst.
+    destruct Hin as [<-|Hin].
+    - rewrite (Hcur s0 (or_introl eq_refl)). cbn. rewrite ps_key_eqb_refl. reflexivity.
+    - assert (ps_s_name s <> ps_s_name s0) as Hne by (intros E; apply H1; rewrite <- E; apply in_map; exact Hin).
+      destruct (ps_pop_find (ps_s_name s0) saved); cbn; rewrite (ps_key_eqb_neq _ _ Hne);
+        (apply IH; [exact H2 | intros s' Hs'; apply Hcur; right; exact Hs' | exact Hin]).
+  Qed.
+
+  Lemma ps_state_restore_names saved base : map ps_p_name (ps_state_restore saved base) = map ps_p_name base.
+  Proof.
+    unfold ps_state_restore. rewrite map_map. apply map_ext. intros b. destruct (ps_pop_find (ps_p_name b) saved); reflexivity.
+  Qed.
+
+  (* THE RESTART THEOREM: DumpProgramState of the running population (state file: every object's version;
+     modified-attributes.conf), start-up on the population as configured (RestoreObjects, then evaluation of the file):
+     nothing throws, and EVERY object - whether it lists modified attributes or not - has its own version, its own values
+     on P and on the frame and its own original_attributes entries; an object that lists nothing is the configured
+     object with its version *)
+  Theorem ps_pop_restart_reload specs :
+    NoDup (map ps_s_name specs) -> (forall s, In s specs -> ps_pspec_ok fe s) ->
+    exists r,
+      ps_pop_restart fe now (ps_pop_cur specs) (ps_pop_base specs) = Some (true, r) /\
+      map ps_p_name r = map ps_s_name specs /\
+      (forall s, In s specs -> exists ro, ps_pop_find (ps_s_name s) r = Some ro /\ ps_pspec_concl_restart s ro).
+  Proof.
+    intros Hnd Hok.
+    destruct (ps_pop_replay_gen (fun s => ps_set_version (ps_m_version (ps_s_cur s)) (ps_s_o0 s)) ps_pspec_concl_restart specs
+                (ps_state_restore (ps_pop_cur specs) (ps_pop_base specs)) Hnd) as (blocks & r & Hd & Hr & Hn & _ & Hall).
+    { intros s Hin. split; [apply ps_state_restore_find; assumption|].
+      destruct (ps_pspec_object s (Hok s Hin)) as (script & ro & Hdump & Hrep & (C1 & C2 & C3 & C4 & C5) & Hnil).
+      destruct (ps_replay_modattrs_version_indep fe script (ps_m_version (ps_s_cur s)) now (ps_s_o0 s)
+                  (ps_set_version (ps_m_version (ps_s_cur s)) (ps_s_o0 s)) ro (conj eq_refl eq_refl) Hrep) as (ro' & Hrep' & [Hf Ho] & Hv & Hn').
+      exists script, ro'. split; [exact Hdump|]. split; [exact Hrep'|]. split; [|exact Hn'].
+      assert (forall q, ps_get_attr q ro' = ps_get_attr q ro) as Hget by (intros q; apply ps_get_attr_same_fields; symmetry; exact Hf).
+      assert (ps_orig_dict ro' = ps_orig_dict ro) as Hod by (unfold ps_orig_dict; rewrite Ho; reflexivity).
+      split; [intros p Hp; rewrite Hget; apply C1; exact Hp|]. split; [intros q Hq; rewrite Hget; apply C2; exact Hq|].
+      split; [intros k x; rewrite Hod; apply C3|].
+      assert (script = [] <-> ps_orig_dict (ps_s_cur s) = []) as Hnl by (apply (ps_dump_modattrs_nil _ _ Hdump)).
+      split.
+      - destruct script as [|l0 sc]; [rewrite (Hn' eq_refl); reflexivity | apply Hv; discriminate].
+      - intros He. apply Hn'. apply Hnl. exact He. }
+    exists r. unfold ps_pop_restart. rewrite Hd. split; [rewrite Hr; reflexivity|]. split; [|exact Hall].
+    rewrite Hn, ps_state_restore_names. unfold ps_pop_base. rewrite map_map. reflexivity.
   Qed.
 End PopReload.
 
@@ -281,4 +407,30 @@ Proof.
   assert (c' = c) as -> by (apply (ps_nodup_name_inj cfg Hnd); [exact Hc' | exact Hin | rewrite <- F1; exact E1]).
   exists (ps_s_cur s), ro. rewrite <- E1. split; [rewrite E1, F4; apply Hrun; exact Hin|]. split; [exact Hfr|].
   rewrite <- E2, <- E3. repeat split; try assumption; try apply C3.
+Qed.
+
+(* ---- non-vacuity: three objects, calls interleaved at different times; the blocks carry each object's own version and
+   the reloaded objects have their own version back; the object that restored everything has no block ---- *)
+Definition ps_v_cfg : list ps_pcfg :=
+  [{| ps_c_name := [49]; ps_c_P := ps_q_P; ps_c_o0 := ps_q_o0 |};
+   {| ps_c_name := [50]; ps_c_P := ps_q_P; ps_c_o0 := ps_q_o0 |};
+   {| ps_c_name := [51]; ps_c_P := ps_q_P; ps_c_o0 := ps_q_o0 |}].
+Definition ps_v_H : list ps_pop_op :=
+  [PsPMod [49] ps_q_a (PsNum 6 0) 5%Z; PsPMod [50] ps_q_n (PsStr [121]) 7%Z; PsPMod [51] ps_q_bc (PsNum 1 0) 8%Z;
+   PsPMod [49] ps_q_xyz (PsStr [104]) 9%Z; PsPRes [51] ps_q_bc 11%Z; PsPMod [50] ps_q_a (PsNum 1234567 7) 12%Z].
+
+Example ps_pop_reload_nonvacuous :
+  let running := ps_pop_run ps_q_fe (ps_pop_cfg ps_v_cfg) ps_v_H in
+  (forall c, In c ps_v_cfg -> ps_hist_ok ps_q_fe (ps_c_P c) (ps_c_o0 c) (ps_pop_proj (ps_c_name c) ps_v_H)) /\
+  match ps_pop_dump running with
+  | Some blocks =>
+    map (fun b => (ps_b_name b, length (ps_b_lines b), ps_b_version b)) blocks = [([49], 2%nat, 9%Z); ([50], 2%nat, 12%Z)] /\
+    map (fun po => ps_m_version (ps_p_obj po)) (snd (ps_pop_replay ps_q_fe 99%Z blocks (ps_pop_cfg ps_v_cfg))) = [9%Z; 12%Z; 0%Z] /\
+    fst (ps_pop_replay ps_q_fe 99%Z blocks (ps_pop_cfg ps_v_cfg)) = true
+  | None => False
+  end /\
+  map (fun po => ps_m_version (ps_p_obj po)) running = [9%Z; 12%Z; 11%Z].
+Proof.
+  split; [|vm_compute; repeat split; reflexivity].
+  intros c [<-|[<-|[<-|[]]]]; vm_compute; repeat split; auto 10.
 Qed.
